@@ -56,9 +56,8 @@ def central(n, ps):
 def inv_fields(n, ps, lo, hi):
     nr, mu, c2, c3, c4 = central(n, ps)
     from pydsol.core.statistics import Tally
-    f = A.ctor_defaults(Tally, "t")
-    f.update({"_n": n, "_sum": ps[0], "_m1": mu, "_m2": c2, "_m3": c3, "_m4": c4, "_min": lo, "_max": hi, "_name": "t"})
-    return f
+    return A.StateFields(A.ctor_defaults(Tally, "t"),
+                         {"_n": n, "_sum": ps[0], "_m1": mu, "_m2": c2, "_m3": c3, "_m4": c4, "_min": lo, "_max": hi, "_name": "t"})
 
 
 def realizable(n, ps, lo, hi):
